@@ -22,6 +22,12 @@ CHECKS = {
    text="Every (kind, len, start, stop, step) of the stated box is enumerated (8 value kinds x len 0..=6 x 20 x 20 x 10 bounds, literal and variable form) together with i64-boundary and beyond-i64 rows and random cases; results (kind and items) are compared with an independent model of Python's slicing and subscripting.",
    note="Trusts model/pyslice.rs (unit tested on CPython examples, cross-checked with python3 in the thorough tier). Out-of-range subscripts are expected to be undefined. Exhaustive only inside the stated box.",
    design="3/C09"),
+ "C16": dict(
+   technique="property-based testing: round-trip oracle over generated serde shape trees (every variant/struct/map-key shape), identity oracle for embedded Values, differential of tojson / JSON auto-escape output against an independent strict RFC 8259 parser",
+   level="exploration",
+   text="Generated shape trees are instantiated through a Rust enum covering the serde data model and must satisfy T::deserialize(Value::from(Serde(&x))) == x (by-value and by-reference deserializer); structs embedding Values must expose the very same values (safe flag, undefined, object identity); tojson (with/without indent, .txt/.html) and {{ v }} in .json templates must emit text that an independent strict JSON parser accepts and that equals the value under the stated equivalences, and tojson output must not contain < > & '. Both map implementations.",
+   note="Trusts model/json.rs (unit tested). Integers above 64 bits and unit-vs-none are outside the round-trip domain as the property states.",
+   design="3/C16"),
  "C17": dict(
    technique="property-based testing: complete enumeration of template names over the quantifier's segment alphabet plus proptest-generated noise names, validity oracle on the returned content against a scratch directory tree with canary files; safe_join additionally checked as a pure function",
    level="exploration",
